@@ -11,6 +11,8 @@ VAR = ['Integer', 'Float']
 def obligations(ctx):
     from .c18 import premise_number_from
     obs = [premise_number_from('C09')]      # first, so that it runs alongside everything else
+    from .c19 import number_literal_obligations
+    obs += number_literal_obligations('C09')
     ocs = (True, False)
     for oc in ocs:
         for k in BIN:
